@@ -7,11 +7,13 @@ pub mod c01;
 pub mod c02;
 pub mod c04;
 pub mod c05;
+pub mod c06;
 pub mod c07;
 pub mod c08;
 pub mod c15;
 pub mod c16;
 pub mod c17;
+pub mod c18;
 pub mod c19;
 
 /// total number of cases over all shards
@@ -21,11 +23,13 @@ pub fn cases(prop: &str, tier: Tier) -> u64 {
         "C02" => c02::cases(tier),
         "C04" => c04::cases(tier),
         "C05" => c05::cases(tier),
+        "C06" => c06::cases(tier),
         "C07" => c07::cases(tier),
         "C08" => c08::cases(tier),
         "C15" => c15::cases(tier),
         "C16" => c16::cases(tier),
         "C17" => c17::cases(tier),
+        "C18" => c18::cases(tier),
         "C19" => c19::cases(tier),
         _ => panic!("unknown property {}", prop),
     }
@@ -37,11 +41,13 @@ pub fn run_case(prop: &str, env: &Env, ctx: &mut Ctx, idx: u64) {
         "C02" => c02::run_case(env, ctx, idx),
         "C04" => c04::run_case(env, ctx, idx),
         "C05" => c05::run_case(env, ctx, idx),
+        "C06" => c06::run_case(env, ctx, idx),
         "C07" => c07::run_case(env, ctx, idx),
         "C08" => c08::run_case(env, ctx, idx),
         "C15" => c15::run_case(env, ctx, idx),
         "C16" => c16::run_case(env, ctx, idx),
         "C17" => c17::run_case(env, ctx, idx),
+        "C18" => c18::run_case(env, ctx, idx),
         "C19" => c19::run_case(env, ctx, idx),
         _ => panic!("unknown property {}", prop),
     }
